@@ -236,8 +236,12 @@ where
     fn drop(&mut self) {
         // If we were the last RefSync on this thread then we need to drop the thread-local
         // state for this thread. Note that there are 2 references - ourselves and the family state.
+        #[cfg(folo_verif)]
+        crate::verif_hook::point("ipts.drop.count");
         if Arc::strong_count(&self.inner) != 2 {
             // No - there is another RefSync, so we do not need to clean up.
+            #[cfg(folo_verif)]
+            crate::verif_hook::point("ipts.drop.not_last");
             return;
         }
 
@@ -245,6 +249,26 @@ where
 
         // `self.inner` is now the last reference to the current thread's instance of T
         // and this instance will be dropped once this function returns and drops the last `Arc<T>`.
+    }
+}
+
+/// Verification-only read-only probe of the per-thread state map.
+#[cfg(folo_verif)]
+impl<T> InstancePerThreadSync<T>
+where
+    T: linked::Object + Send + Sync,
+{
+    /// The threads that currently have an entry in the thread-specific state map.
+    #[doc(hidden)]
+    #[must_use]
+    pub fn __verif_thread_state_keys(&self) -> Vec<ThreadId> {
+        self.family
+            .thread_specific
+            .read()
+            .expect(ERR_POISONED_LOCK)
+            .keys()
+            .copied()
+            .collect()
     }
 }
 
@@ -284,6 +308,8 @@ where
 
         // First, an optimistic pass - let us assume it is already initialized for our thread.
         {
+            #[cfg(folo_verif)]
+            crate::verif_hook::point("ipts.map.read");
             let map = self.thread_specific.read().expect(ERR_POISONED_LOCK);
 
             if let Some(state) = map.get(&thread_id) {
@@ -298,6 +324,8 @@ where
         let instance: Arc<T> = Arc::new(self.family.clone().into());
 
         // Let us add the new instance to the map.
+        #[cfg(folo_verif)]
+        crate::verif_hook::point("ipts.map.write");
         let mut map = self.thread_specific.write().expect(ERR_POISONED_LOCK);
 
         // In some wild corner cases, it is perhaps possible that the arbitrary code in the
@@ -325,6 +353,8 @@ where
         // We need to clear the thread-specific state for this thread.
         let thread_id = thread::current().id();
 
+        #[cfg(folo_verif)]
+        crate::verif_hook::point("ipts.clear.write");
         let mut map = self.thread_specific.write().expect(ERR_POISONED_LOCK);
         map.remove(&thread_id);
     }
@@ -364,6 +394,8 @@ where
             return;
         }
 
+        #[cfg(folo_verif)]
+        crate::verif_hook::point("ipts.family_drop.read");
         let map = self.thread_specific.read().expect(ERR_POISONED_LOCK);
         assert!(
             map.is_empty(),
